@@ -205,19 +205,40 @@ Global Opaque sec_mul MUL64.
 Definition mblk (msg:bytes) (i:nat) : N := be_to_N (firstn 8 (skipn (8 * i) msg)).
 Definition mstep (P:N) (e m:N) : N := sec_mul (N.lxor e m) P 27.
 
+Lemma mstep_eq P e m : mstep P e m = sec_mul (N.lxor e m) P 27.
+Proof. reflexivity. Qed.
+Lemma nia1_loop_unfold fuel i bound msg P E :
+  nia1_loop fuel i bound msg P E =
+  if i <? bound then
+    match fuel with
+    | O => SFuel
+    | S f =>
+        if N.of_nat (length msg) <? 8 * i then SPanic
+        else match be_uint 8 (skipn (N.to_nat (8 * i)) msg) with
+             | None => SPanic
+             | Some M => nia1_loop f (i + 1) bound msg P (sec_mul (N.lxor E M) P 27)
+             end
+    end
+  else SOk E.
+Proof. destruct fuel; reflexivity. Qed.
+Lemma fold_blocks_cons P msg i k E :
+  fold_left (mstep P) (map (mblk msg) (seq i (S k))) E
+  = fold_left (mstep P) (map (mblk msg) (seq (S i) k)) (mstep P E (mblk msg i)).
+Proof. reflexivity. Qed.
+
 Lemma nia1_loop_blocks msg P q : (8 * q < length msg)%nat ->
   forall k i fuel E, (i + k = q)%nat -> (k <= fuel)%nat ->
     nia1_loop fuel (N.of_nat i) (N.of_nat q) msg P E = SOk (fold_left (mstep P) (map (mblk msg) (seq i k)) E).
 Proof.
   intros Hq. induction k as [|k IH]; intros i fuel E Hik Hf.
-  - destruct fuel; cbn [nia1_loop]; replace (N.of_nat i <? N.of_nat q) with false by lia; reflexivity.
-  - destruct fuel as [|f]; [lia|]. cbn [nia1_loop].
+  - rewrite nia1_loop_unfold. replace (N.of_nat i <? N.of_nat q) with false by lia. reflexivity.
+  - destruct fuel as [|f]; [lia|]. rewrite nia1_loop_unfold.
     replace (N.of_nat i <? N.of_nat q) with true by lia.
     replace (N.of_nat (length msg) <? 8 * N.of_nat i) with false by lia.
     replace (N.to_nat (8 * N.of_nat i)) with (8 * i)%nat by lia.
     unfold be_uint. rewrite skipn_length. replace (8 <=? length msg - 8 * i)%nat with true by (symmetry; apply Nat.leb_le; lia).
     replace (N.of_nat i + 1) with (N.of_nat (S i)) by lia.
-    rewrite IH by lia. cbn [seq map fold_left]. reflexivity.
+    rewrite IH by lia. rewrite fold_blocks_cons, mstep_eq. reflexivity.
 Qed.
 
 Lemma blocks64_split msg q : (8 * q < length msg)%nat -> (length msg <= 8 * q + 8)%nat ->
